@@ -39,7 +39,7 @@ def run(report, tier):
         Harness(name="accept", module="harness.c06", body="body_accept", sig="sel: int", n_sel=H.N_ACCEPT,
                 claim="every published and registered name is accepted in model position with/without PHOTOS and parameters, next to "
                       "labels that extend model names, and reported verbatim (also when user names are registered)",
-                bounds=f"{len(H.ALL)} names x PHOTOS x 3 parameter variants x family registered or not",
+                bounds=f"{len(H.ALL)} names x PHOTOS x 3 parameter variants x family not registered / registered in one call / in two calls",
                 functions=FUNCS, timeout=t, concrete_body=True, sample={"name": "CB3PI-MPP", "registered": list(H.FAMILY)}),
         Harness(name="reject", module="harness.c06", body="body_reject", sig="sel: int", n_sel=H.N_REJECT,
                 claim="a near-miss unknown word in model position makes parse() raise (ValueError or lark UnexpectedInput) unless a "
